@@ -38,6 +38,7 @@ import (
 	"math"
 	"os"
 	"path/filepath"
+	"runtime/debug"
 	"sort"
 	"strconv"
 	"strings"
@@ -817,6 +818,9 @@ func vfRunCase(line string, base string, n int) (res string) {
 	out = append(out, "fsm "+id)
 	defer func() {
 		if r := recover(); r != nil {
+			if os.Getenv("VERIF_FSM_STACK") == "1" {
+				fmt.Fprintf(os.Stderr, "verif: panic in case %s: %v\n%s\n", id, r, debug.Stack())
+			}
 			msg := fmt.Sprint(r)
 			if len(msg) > 80 {
 				msg = msg[:80]
@@ -851,8 +855,29 @@ func vfRunCase(line string, base string, n int) (res string) {
 	}
 	vfAliveAfter = map[uint64]map[uint64]bool{}
 	vfRecordAlive = true
-	states, outs, _, perr := vfReplay(dir, toks)
+	var states, outs []string
+	var perr error
+	plainPanic := ""
+	func() {
+		// a panic while the log is replayed PLAINLY (no FSM bookkeeping involved) means the log contains a message
+		// of death: that is C06/C07's business; there is no reference to compare a snapshot schedule with
+		defer func() {
+			if r := recover(); r != nil {
+				plainPanic = fmt.Sprint(r)
+				if os.Getenv("VERIF_FSM_STACK") == "1" {
+					fmt.Fprintf(os.Stderr, "verif: panic in plain replay of case %s: %v\n%s\n", id, r, debug.Stack())
+				}
+			}
+		}()
+		states, outs, _, perr = vfReplay(dir, toks)
+	}()
 	vfRecordAlive = false
+	if plainPanic != "" {
+		if len(plainPanic) > 100 {
+			plainPanic = plainPanic[:100]
+		}
+		return "fsm " + id + " | plainpanic:" + strconv.Itoa(len(vfAliveAfter)) + ":" + hex.EncodeToString([]byte(plainPanic))
+	}
 	plainDumps, plainOuts := vfLastReplayDumps, vfLastReplayOuts
 	w, err := vfNewWorld(dir, useProto, fileSink, entries)
 	if err != nil {
